@@ -38,7 +38,7 @@ def run(ctx) -> None:
     ctx.rule("e.construction", "Table.__init__ restores the saved source names by position; >> {name: values} names a FRESH copy "
                                "with the dict key", 2)
     ctx.rule("f.joins", "join results: left column i / right column j take the stored name of their source column (as C09.e)", 3)
-    ctx.rule("g.aggregate-window", "key outputs are uniquify(name or 'key'); aggregate outputs uniquify(<sanitised>_<function>); apply "
+    ctx.rule("g.aggregate-window", "key outputs are uniquify(stored name; 'key' only when unnamed); aggregate outputs uniquify(<sanitised>_<function>); apply "
                                    "outputs uniquify(key); uniquify returns an unused name and records it; aggregate and window agree", 10)
     ctx.rule("h.table-selections", "row slices / masks / selections and sort_by rebuild each column under its source name", 3)
     ctx.section("math", _math, ctx)
@@ -404,8 +404,12 @@ MUTANTS = [
          new="	if left_name is None:\n		# Case B: left unnamed, right named\n		return (right_name, \"right-named-left-unnamed\")", rules=["d.table-table"]),
     dict(id="binary-name-falsy", module=_T, old="	if right_name is None or right_name == left_name:", new="	if not right_name or right_name == left_name:",
          rules=["d.table-table"]),
-    dict(id="aggregate-key-bypasses-uniquify", module=_T, old="			result_cols.append(Vector(values, name=uniquify(col._name or \"key\")))",
-         new="			result_cols.append(Vector(values, name=col._name or \"key\"))", rules=["g.aggregate-window"]),
+    dict(id="aggregate-key-bypasses-uniquify", module=_T, old="			result_cols.append(Vector(values, name=uniquify(col._name if col._name is not None else \"key\")))",
+         new="			result_cols.append(Vector(values, name=col._name if col._name is not None else \"key\"))", rules=["g.aggregate-window"]),
+    dict(id="aggregate-key-name-falsy", module=_T, count=2, nth=0, old="col._name if col._name is not None else \"key\"", new="col._name or \"key\"",
+         rules=["g.aggregate-window"], desc="a key column named '' is renamed to 'key' (and pushes a real 'key' column to 'key2')"),
+    dict(id="twin-key-name-none-first", module=_T, twin=True, count=2, nth=0, old="col._name if col._name is not None else \"key\"",
+         new="\"key\" if col._name is None else col._name"),
     dict(id="window-uniquify-counter", module=_T,
          old="			i = 2\n			while f\"{name}{i}\" in used:\n				i += 1\n			final = f\"{name}{i}\"\n			used.add(final)\n			return final",
          new="			i = len([u for u in used if u.startswith(name)]) + 1\n			final = f\"{name}{i}\"\n			used.add(final)\n			return final",
